@@ -38,8 +38,6 @@ var vxTexts = []string{
 	"EXPLAIN SELECT a FROM t",
 	"REPLACE INTO t ( a ) VALUES ( 1 )",
 	"TRUNCATE TABLE t ; SHOW TABLES",
-	"",
-	"   ",
 }
 
 func vxCode(err error) string {
